@@ -83,6 +83,10 @@ pub enum Who {
     Gov,
     Former(u8),
     User(u8),
+    /// the chain-level (wasm module) admin of the ics20 contract: it may migrate the code, it is not governance
+    ChainAdmin,
+    /// cw20 token contract k itself (a contract can send messages too)
+    Token(u8),
 }
 
 #[derive(Clone, Debug, Serialize, Deserialize, PartialEq)]
@@ -133,6 +137,10 @@ pub struct Case {
     pub legacy: Option<Legacy>,
     pub malicious: bool,
     pub ops: Vec<Op>,
+    /// every local channel is connected to a counterparty endpoint of the same name (different remote
+    /// chains number their channels independently)
+    #[serde(default)]
+    pub same_remote: bool,
 }
 
 // ------------------------------------------------------------------ strategies
@@ -158,7 +166,7 @@ fn memo() -> BoxedStrategy<Option<String>> {
     prop_oneof![3 => Just(None), 1 => Just(Some(String::new())), 2 => "[a-z{}\":]{1,12}".prop_map(Some)].boxed()
 }
 fn who() -> BoxedStrategy<Who> {
-    prop_oneof![4 => Just(Who::Gov), 2 => (0u8..3).prop_map(Who::Former), 2 => user().prop_map(Who::User)].boxed()
+    prop_oneof![8 => Just(Who::Gov), 4 => (0u8..3).prop_map(Who::Former), 4 => user().prop_map(Who::User), 1 => Just(Who::ChainAdmin), 2 => (0u8..N_CW20 as u8).prop_map(Who::Token)].boxed()
 }
 fn form(malicious: bool) -> BoxedStrategy<DenomForm> {
     if malicious {
@@ -243,9 +251,9 @@ pub fn case_strategy(prop: &str, tier: Tier) -> BoxedStrategy<Case> {
             let channels = if leg.is_some() { prop_oneof![6 => Just(1u8), 1 => 2u8..=3].boxed() } else { (1u8..=3).boxed() };
             // most tokens allowed so that transfers are live; C18 starts from sparser lists
             let allow = proptest::collection::vec((0u8..N_CW20 as u8, gas()), if p == "C18" { 0..3 } else { 1..4 });
-            (Just(mal), Just(leg), channels, allow, gas(), proptest::collection::vec(op(&p, mal), 0..max_ops))
+            (Just(mal), Just(leg), channels, allow, gas(), proptest::collection::vec(op(&p, mal), 0..max_ops), proptest::bool::weighted(0.2))
         })
-        .prop_map(|(malicious, legacy, channels, allow, default_gas, ops)| Case { channels, allow, default_gas, legacy, malicious, ops })
+        .prop_map(|(malicious, legacy, channels, allow, default_gas, ops, same_remote)| Case { channels, allow, default_gas, legacy, malicious, ops, same_remote })
         .boxed()
 }
 
@@ -376,10 +384,20 @@ struct World {
 fn chan_id(i: usize) -> String {
     format!("channel-{i}")
 }
+thread_local! {
+    /// this case's channels all have the same counterparty endpoint (several remote chains that each call
+    /// their end `transfer/channel-0`): set by run_case
+    static SAME_REMOTE: std::cell::Cell<bool> = const { std::cell::Cell::new(false) };
+}
+
 /// Counterparty channel ids deliberately collide with our own local ids (channel ids are per-chain
 /// counters, so "channel-1" on the other side next to a local "channel-1" is the normal situation):
 /// local channel-0 <-> remote channel-1, channel-1 <-> channel-2, channel-2 <-> channel-0.
+
 fn remote_chan_id(i: usize) -> String {
+    if SAME_REMOTE.with(|c| c.get()) {
+        return "channel-0".to_string();
+    }
     format!("channel-{}", (i + 1) % 3)
 }
 const REMOTE_PORT: &str = "transfer";
@@ -479,6 +497,10 @@ enum Done {
 // ------------------------------------------------------------------ interpreter
 
 pub fn run_case(prop: &str, case: &Case, ctx: &mut CaseCtx) -> Result<(), Violation> {
+    SAME_REMOTE.with(|c| c.set(case.same_remote));
+    if case.same_remote {
+        ctx.count("cases_same_remote_endpoint");
+    }
     let mut app = new_app();
     app.update_block(|b| b.time = cosmwasm_std::Timestamp::from_seconds(b.time.seconds()));
     let users: Vec<Addr> = (0..N_USERS).map(|i| app.api().addr_make(&format!("user{i}"))).collect();
@@ -543,7 +565,10 @@ pub fn run_case(prop: &str, case: &Case, ctx: &mut CaseCtx) -> Result<(), Violat
     let mut paid = vec![[0u128; N_TOK]; n_ch];
     let mut remote_held = vec![[0u128; N_TOK]; n_ch];
     let mut former_admins: Vec<Addr> = vec![];
-    let mut seq: u64 = 0;
+    // packet sequences are counted per channel and direction, as IBC core does (the first packet sent on
+    // every channel has sequence 1)
+    let mut seq_out: Vec<u64> = vec![0; 4];
+    let mut seq_in: Vec<u64> = vec![0; 4];
     let mut allow_changed = false;
 
     // ---- legacy arm: fabricate the old storage image, then migrate
@@ -577,8 +602,8 @@ pub fn run_case(prop: &str, case: &Case, ctx: &mut CaseCtx) -> Result<(), Violat
             for (k, a) in inflight.iter().enumerate() {
                 let sender = w.users[k % N_USERS].to_string();
                 let data = to_json_binary(&WirePacket { amount: Uint128::new(*a as u128), denom: denom.clone(), receiver: "remote-old".into(), sender: sender.clone(), memo: None }).unwrap();
-                seq += 1;
-                pkts.push(Pkt { ch: *ch, tok: *tok, amount: *a as u128, sender, data, timeout: IbcTimeout::with_timestamp(w.app.block_info().time.plus_seconds(5000)), state: PState::InFlight, seq });
+                seq_out[*ch] += 1;
+                pkts.push(Pkt { ch: *ch, tok: *tok, amount: *a as u128, sender, data, timeout: IbcTimeout::with_timestamp(w.app.block_info().time.plus_seconds(5000)), state: PState::InFlight, seq: seq_out[*ch] });
                 // after the migration in-flight sends count as sent
                 sent[*ch][*tok] += *a as u128;
                 escrowed[*ch][*tok] += *a as u128;
@@ -662,8 +687,8 @@ pub fn run_case(prop: &str, case: &Case, ctx: &mut CaseCtx) -> Result<(), Violat
                     if r.is_ok() {
                         let all = sent_packets(&w.app);
                         if let (Some(sp), true) = (all.last(), all.len() == pre.n_sent + 1) {
-                            seq += 1;
-                            pkts.push(Pkt { ch: chx, tok: N_NATIVE + *tok as usize % N_CW20, amount, sender: w.users[by].to_string(), data: sp.data.clone(), timeout: sp.timeout.clone(), state: PState::InFlight, seq });
+                            seq_out[chx] += 1;
+                            pkts.push(Pkt { ch: chx, tok: N_NATIVE + *tok as usize % N_CW20, amount, sender: w.users[by].to_string(), data: sp.data.clone(), timeout: sp.timeout.clone(), state: PState::InFlight, seq: seq_out[chx] });
                         }
                     }
                 }
@@ -742,6 +767,11 @@ pub fn run_case(prop: &str, case: &Case, ctx: &mut CaseCtx) -> Result<(), Violat
                     }
                 };
                 let mut eff_form = *form;
+                // what counts is the denom itself: with equal counterparty endpoints "another channel's prefix"
+                // is this channel's own prefix
+                if denom == format!("{REMOTE_PORT}/{}/{base}", remote_chan_id(chx)) {
+                    eff_form = DenomForm::Right;
+                }
                 if !case.malicious {
                     // the honest counterparty only returns vouchers it holds
                     if matches!(form, DenomForm::Right) {
@@ -761,8 +791,8 @@ pub fn run_case(prop: &str, case: &Case, ctx: &mut CaseCtx) -> Result<(), Violat
                         let _ = try_sudo(&mut w.app, &w.cw20[tok - N_NATIVE].clone(), &FlakyCtl::Set { on: true });
                     }
                 }
-                seq += 1;
-                let packet = IbcPacket::new(data, IbcEndpoint { port_id: REMOTE_PORT.into(), channel_id: remote_chan_id(chx) }, IbcEndpoint { port_id: w.port(), channel_id: chan_id(chx) }, seq, IbcTimeout::with_timestamp(block_time.plus_seconds(600)));
+                seq_in[chx] += 1;
+                let packet = IbcPacket::new(data, IbcEndpoint { port_id: REMOTE_PORT.into(), channel_id: remote_chan_id(chx) }, IbcEndpoint { port_id: w.port(), channel_id: chan_id(chx) }, seq_in[chx], IbcTimeout::with_timestamp(block_time.plus_seconds(600)));
                 let r = try_sudo(&mut w.app, &w.ics20.clone(), &Shim::Receive { msg: IbcPacketReceiveMsg::new(packet, w.relayer.clone()) });
                 if inject {
                     if tok < N_NATIVE {
@@ -775,7 +805,7 @@ pub fn run_case(prop: &str, case: &Case, ctx: &mut CaseCtx) -> Result<(), Violat
             }
             Op::RecvRaw { ch, bytes } => {
                 let chx = *ch as usize % n_ch;
-                seq += 1;
+                seq_in[chx] += 1;
                 // if the bytes happen to be a well-formed ICS-20 packet, interpret it like a structured one
                 let parsed: Option<WirePacket> = cosmwasm_std::from_json::<WirePacket>(bytes.as_slice()).ok();
                 let (tok, form, amount, receiver) = match &parsed {
@@ -798,7 +828,7 @@ pub fn run_case(prop: &str, case: &Case, ctx: &mut CaseCtx) -> Result<(), Violat
                     }
                     _ => None,
                 };
-                let packet = IbcPacket::new(Binary::from(bytes.clone()), IbcEndpoint { port_id: REMOTE_PORT.into(), channel_id: remote_chan_id(chx) }, IbcEndpoint { port_id: w.port(), channel_id: chan_id(chx) }, seq, IbcTimeout::with_timestamp(block_time.plus_seconds(600)));
+                let packet = IbcPacket::new(Binary::from(bytes.clone()), IbcEndpoint { port_id: REMOTE_PORT.into(), channel_id: remote_chan_id(chx) }, IbcEndpoint { port_id: w.port(), channel_id: chan_id(chx) }, seq_in[chx], IbcTimeout::with_timestamp(block_time.plus_seconds(600)));
                 let r = try_sudo(&mut w.app, &w.ics20.clone(), &Shim::Receive { msg: IbcPacketReceiveMsg::new(packet, w.relayer.clone()) });
                 if let Some((a, t, before)) = extra {
                     let after = w.balance(&a, t).unwrap_or(0);
@@ -950,8 +980,8 @@ pub fn run_case(prop: &str, case: &Case, ctx: &mut CaseCtx) -> Result<(), Violat
                     }
                     if let Some(sp) = all.last() {
                         if all.len() == pre.n_sent + 1 {
-                            seq += 1;
-                            pkts.push(Pkt { ch: *ch, tok: *tok, amount: moved, sender: w.users[*by].to_string(), data: sp.data.clone(), timeout: sp.timeout.clone(), state: PState::InFlight, seq });
+                            seq_out[*ch] += 1;
+                            pkts.push(Pkt { ch: *ch, tok: *tok, amount: moved, sender: w.users[*by].to_string(), data: sp.data.clone(), timeout: sp.timeout.clone(), state: PState::InFlight, seq: seq_out[*ch] });
                         }
                     }
                     ctx.flag("sent");
@@ -1213,6 +1243,8 @@ fn resolve_who(w: &World, by: &Who, pre: &Obs, former: &[Addr]) -> Addr {
             }
         }
         Who::User(i) => w.users[*i as usize % N_USERS].clone(),
+        Who::ChainAdmin => w.wasm_admin.clone(),
+        Who::Token(k) => w.cw20[*k as usize % N_CW20].clone(),
     }
 }
 
@@ -1309,6 +1341,7 @@ pub fn raw_packet_case(bytes: &[u8]) -> Case {
         default_gas: None,
         legacy: None,
         malicious: false,
+        same_remote: false,
         ops: vec![
             Op::SendNative { by: 0, ch: 0, denom: 0, amt: SendAmt::Abs(1000), timeout: None, memo: None },
             Op::SendCw20 { by: 1, ch: 0, tok: 0, amt: SendAmt::Abs(700), timeout: Some(50), memo: Some("m".into()) },
@@ -1417,10 +1450,12 @@ pub fn decode_case(prop: &str, u: &mut arbitrary::Unstructured) -> Case {
         }
     };
     let d_who = |u: &mut arbitrary::Unstructured| -> Who {
-        match arb_below(u, 4) {
-            0 | 1 => Who::Gov,
-            2 => Who::Former(arb_below(u, 3) as u8),
-            _ => Who::User(arb_below(u, N_USERS) as u8),
+        match arb_below(u, 9) {
+            0..=3 => Who::Gov,
+            4 | 5 => Who::Former(arb_below(u, 3) as u8),
+            6 => Who::User(arb_below(u, N_USERS) as u8),
+            7 => Who::ChainAdmin,
+            _ => Who::Token(arb_below(u, N_CW20) as u8),
         }
     };
     let n_ops = arb_below(u, 44);
@@ -1468,5 +1503,6 @@ pub fn decode_case(prop: &str, u: &mut arbitrary::Unstructured) -> Case {
         };
         ops.push(op);
     }
-    Case { channels, allow, default_gas, legacy, malicious, ops }
+    let same_remote = arb_bool(u, 1, 5);
+    Case { channels, allow, default_gas, legacy, malicious, ops, same_remote }
 }
